@@ -328,4 +328,76 @@ theorem mem_dictToPaths (q : Path) : ∀ (root : Path) (d v : Val), resolve d q 
           right; exact ihk h'
     | _ => simp [resolve] at h
 
+mutual
+/-- every dictionary inside the value has unique keys (true of every Python value) -/
+def UniqueAllV : Val → Prop
+  | .dict kvs => KV.Nodup kvs ∧ UniqueAllL kvs
+  | _ => True
+def UniqueAllL : List (String × Val) → Prop
+  | [] => True
+  | (_, v) :: rest => UniqueAllV v ∧ UniqueAllL rest
+end
+
+theorem lookup_isSome_mem_keys (k : String) (kvs : KVs) (c : Val) (h : KV.lookup k kvs = some c) :
+    k ∈ KV.keys kvs := by
+  apply Classical.byContradiction
+  intro hn
+  have := (KV.lookup_none_iff_not_mem_keys k kvs).mpr hn
+  rw [h] at this; cases this
+
+/-- every entry listed by `make_path_dict` is a leaf of the dictionary, read at its path -/
+theorem dictToPaths_sound (root : Path) (d : Val) : UniqueAllV d → ∀ p v,
+    (p, v) ∈ dictToPaths root d → ∃ q, p = root ++ q ∧ resolve d q = some v ∧ v.isDict = false := by
+  refine dictToPaths.induct
+    (motive_1 := fun root kvs => KV.Nodup kvs → UniqueAllL kvs → ∀ p v,
+      (p, v) ∈ dictToPaths.goList root kvs →
+      ∃ q, p = root ++ q ∧ resolve (.dict kvs) q = some v ∧ v.isDict = false)
+    (motive_2 := fun root d => UniqueAllV d → ∀ p v,
+      (p, v) ∈ dictToPaths root d → ∃ q, p = root ++ q ∧ resolve d q = some v ∧ v.isDict = false)
+    ?_ ?_ ?_ ?_ root d
+  · intro root kvs ih hu p v hm
+    rw [dictToPaths.eq_1] at hm
+    simp only [UniqueAllV] at hu
+    exact ih hu.1 hu.2 p v hm
+  · intro root x hx _ p v hm
+    rw [dictToPaths.eq_2 _ _ hx] at hm
+    simp only [List.mem_singleton, Prod.mk.injEq] at hm
+    obtain ⟨h1, h2⟩ := hm
+    subst h1; subst h2
+    refine ⟨[], by simp, rfl, ?_⟩
+    cases v <;> simp [Val.isDict]
+    exact hx _ rfl
+  · intro root _ _ p v hm
+    simp [dictToPaths.goList] at hm
+  · intro root k x rest ih2 ih1 hnd hu p v hm
+    rw [dictToPaths.goList.eq_2, List.mem_append] at hm
+    simp only [UniqueAllL] at hu
+    have hnd' : KV.Nodup rest := by
+      unfold KV.Nodup KV.keys at hnd ⊢
+      simp only [List.map_cons, List.nodup_cons] at hnd; exact hnd.2
+    have hknot : k ∉ KV.keys rest := by
+      unfold KV.Nodup KV.keys at hnd
+      simp only [List.map_cons, List.nodup_cons] at hnd; exact hnd.1
+    rcases hm with hm | hm
+    · obtain ⟨q, h1, h2, h3⟩ := ih2 hu.1 p v hm
+      refine ⟨k :: q, by simp [h1], ?_, h3⟩
+      show (KV.lookup k ((k, x) :: rest)).bind (fun c => resolve c q) = some v
+      simp [KV.lookup, h2]
+    · obtain ⟨q, h1, h2, h3⟩ := ih1 hnd' hu.2 p v hm
+      refine ⟨q, h1, ?_, h3⟩
+      cases q with
+      | nil =>
+        simp only [resolve, Option.some.injEq] at h2
+        subst h2; simp [Val.isDict] at h3
+      | cons k' q' =>
+        have h2' : (KV.lookup k' rest).bind (fun c => resolve c q') = some v := h2
+        show (KV.lookup k' ((k, x) :: rest)).bind (fun c => resolve c q') = some v
+        cases hl : KV.lookup k' rest with
+        | none => simp [hl] at h2'
+        | some c =>
+          have hmem := lookup_isSome_mem_keys k' rest c hl
+          have hne : ¬ (k = k') := fun e => hknot (e ▸ hmem)
+          simp only [KV.lookup, hne, if_false]
+          exact h2'
+
 end Viv
